@@ -30,6 +30,8 @@ extern void (*sched_on_deadlock)(const char *state_description);
 extern void (*sched_on_idle)(void);
 /* label hook: a context switch happened at yield point `why` from thread a to thread b */
 extern void (*sched_on_switch)(const char *why, int from, int to);
+/* called in the running thread at every yield point, before the scheduling decision */
+extern void (*sched_on_point)(const char *why);
 const char *sched_describe(void);
 void sched_io_pre(int is_write, int fd, size_t n);      /* install as vk_hooks.io_pre / io_post: yield points around descriptor I/O */
 void sched_io_post(int is_write, int fd, ssize_t r);
